@@ -457,7 +457,7 @@ func storesTrueTo(fn *ssa.Function, v ssa.Value, field string, before ssa.Instru
 
 func c13resolve(c *core.Ctx, r *core.Reporter) {
 	const rule = "C13.resolve"
-	r.Rule(rule, "every function that resolves a package-qualified name through UnpackName and fetches a variable or function entry from that package branches on the entry's Export flag or on the :: marker before using it", 2)
+	r.Rule(rule, "every function that resolves a package-qualified name through UnpackName and fetches a variable or function entry from that package branches on the entry's Export flag before using it", 2)
 	for _, fn := range c.ModuleFuncs() {
 		if fn.Pkg == nil || fn.Pkg.Pkg.Path() != core.SlipPath {
 			continue // definers in other packages name the package to define in; only the core resolvers look entries up
@@ -498,7 +498,7 @@ func c13resolve(c *core.Ctx, r *core.Reporter) {
 					}
 				}
 				if ifi, ok := in.(*ssa.If); ok {
-					if condReadsAnyField(ifi.Cond, "Export") || (private != nil && ifi.Cond == private) {
+					if condReadsAnyField(ifi.Cond, "Export") {
 						testsExport = true
 					}
 				}
@@ -507,6 +507,6 @@ func c13resolve(c *core.Ctx, r *core.Reporter) {
 		if !fetches {
 			continue
 		}
-		r.Decide(testsExport, rule, core.SSAName(fn), c.Pos(unpack.Pos()), fmt.Sprintf("branches on Export or on the private (::) marker: %v", testsExport))
+		r.Decide(testsExport, rule, core.SSAName(fn), c.Pos(unpack.Pos()), fmt.Sprintf("branches on the entry's Export flag: %v", testsExport))
 	}
 }
